@@ -175,6 +175,7 @@ func ruleFullRune(c *Ctx, r *Report, rule string) {
 
 // sliceShape renders l.input[l.pos:] as "<lexer>.input[<lexer>.pos:]".
 func (c *Ctx) sliceShape(e ast.Expr) string {
+	e = c.unfoldTrivial(e)
 	se, ok := stripParens(e).(*ast.SliceExpr)
 	if !ok {
 		return c.fieldPath(e)
@@ -1250,4 +1251,205 @@ func (c *Ctx) runeClasses(fd *ast.FuncDecl, cond ast.Expr, init *ast.AssignStmt,
 		}
 	}
 	return out, about
+}
+
+// ruleCursorSteps: the cursor primitives move the cursor by exactly the decoded rune.
+//
+//	next      decodes at input[pos:]; returning the rune it leaves pos = pos+w and width = w (w the decoded width),
+//	          returning eof (only when w == 0) it leaves pos where it was; start is not moved
+//	backup    pos -= width       unbackup  pos += width
+//	ignore    start = pos        emit      start = pos (pos unchanged)
+func ruleCursorSteps(c *Ctx, r *Report, rule string) {
+	r.rule(rule, 6, "the cursor primitives are exact: next() returns the decoded rune with pos advanced by its width w and width = w, or eof exactly when w == 0 with pos unchanged, never moving start; backup() is pos -= width, unbackup() is pos += width, ignore() is start = pos, emit() ends with start = pos and leaves pos alone (so a token's text is the bytes from the end of the previous token or ignored run up to the cursor, and taking a rune back never splits it)")
+	m, err := c.nextModel()
+	if err != nil {
+		r.bad(rule, "lexer.next", err.Error(), "")
+		return
+	}
+	r.fn("lexer.next")
+	pos := c.pos(m.Fn.Pos())
+	for _, u := range m.Undecided {
+		r.undecided(rule, "next/model", u, pos)
+	}
+	nRune, nEof := 0, 0
+	okRune, okEof, why := true, true, ""
+	w := linSym("w")
+	for _, p := range m.Final {
+		if !p.decoded || p.posAtDec == nil {
+			okRune, why = false, "a path through next() returns without decoding a rune"
+			continue
+		}
+		d := p.pos.sub(p.posAtDec)
+		switch p.ret {
+		case "rune":
+			nRune++
+			switch {
+			case p.zeroW == "true":
+				okRune, why = false, "the decoded rune is returned although nothing was decoded (width 0): eof is never reported"
+			case !d.equal(w):
+				okRune, why = false, fmt.Sprintf("returning the rune, pos moved by %s; it must move by the decoded width", d)
+			case p.width == nil || !p.width.equal(w):
+				okRune, why = false, "returning the rune, lexer.width is not the decoded width (backup would not take the rune back exactly)"
+			case !p.start.equal(p.startAtDec):
+				okRune, why = false, "next() moves start after decoding"
+			case p.zeroW == "":
+				okRune, why = false, "the rune is returned without testing the decoded width for 0 (the end of input would be returned as a rune)"
+			}
+		case "eof":
+			nEof++
+			switch {
+			case p.zeroW != "true":
+				okEof, why = false, "eof is returned on a path where the decoded width is not known to be 0"
+			case !(d.equal(linConst(0)) || d.equal(w)):
+				okEof, why = false, fmt.Sprintf("returning eof, pos moved by %s", d)
+			case !p.start.equal(p.startAtDec):
+				okEof, why = false, "next() moves start after decoding"
+			}
+		default:
+			okRune, why = false, "next() returns "+p.ret+", neither the decoded rune nor eof"
+		}
+	}
+	r.check(okRune && nRune > 0, rule, "next/advance", "pos += w, width = w on every rune-returning path", "next(): "+why, pos)
+	r.check(okEof && nEof > 0, rule, "next/eof", "eof exactly when the decoded width is 0, cursor unchanged", "next(): "+why, pos)
+	want := []struct {
+		fn         string
+		field, exp string
+		keep       []string
+	}{
+		{"lexer.backup", "pos", "pos-width", []string{"start", "width", "posShift"}},
+		{"lexer.unbackup", "pos", "pos+width", []string{"start", "width", "posShift"}},
+		{"lexer.ignore", "start", "pos", []string{"pos", "posShift"}},
+		{"lexer.emit", "start", "pos", []string{"pos", "posShift"}},
+	}
+	sym := map[string]*Lin{"pos": linSym("pos"), "start": linSym("start"), "width": linSym("width"), "posShift": linSym("posShift")}
+	exp := map[string]*Lin{"pos-width": sym["pos"].sub(sym["width"]), "pos+width": sym["pos"].add(sym["width"]), "pos": sym["pos"]}
+	for _, wnt := range want {
+		_, fd := c.find(wnt.fn)
+		if fd == nil || fd.Body == nil {
+			r.bad(rule, wnt.fn, "function not found", "")
+			continue
+		}
+		r.fn(wnt.fn)
+		env := map[string]*Lin{}
+		for k, v := range sym {
+			env["<lexer>."+k] = v
+		}
+		if msg := c.cursorEffects(fd, env, 0); msg != "" {
+			r.undecided(rule, wnt.fn, msg, c.pos(fd.Pos()))
+			continue
+		}
+		ok, why := true, ""
+		if got := env["<lexer>."+wnt.field]; got == nil || !got.equal(exp[wnt.exp]) {
+			ok, why = false, fmt.Sprintf("%s leaves %s = %v; it must be %s", wnt.fn, wnt.field, got, wnt.exp)
+		}
+		for _, k := range wnt.keep {
+			if got := env["<lexer>."+k]; got == nil || !got.equal(sym[k]) {
+				ok, why = false, fmt.Sprintf("%s changes %s (to %v)", wnt.fn, k, got)
+			}
+		}
+		r.check(ok, rule, wnt.fn, wnt.field+" = "+wnt.exp, why, c.pos(fd.Pos()))
+	}
+}
+
+// cursorEffects runs the straight-line assignments to the window's integer fields in fd (and in lexer methods it
+// calls unconditionally) over env; a message is returned when the body is not of that shape.
+func (c *Ctx) cursorEffects(fd *ast.FuncDecl, env map[string]*Lin, depth int) string {
+	if depth > 4 {
+		return "helpers nest too deeply"
+	}
+	isCursor := func(e ast.Expr) (string, bool) {
+		fp := c.fieldPath(e)
+		_, ok := env[fp]
+		return fp, ok
+	}
+	writesCursor := func(n ast.Node) bool {
+		found := false
+		ast.Inspect(n, func(n ast.Node) bool {
+			switch n := n.(type) {
+			case *ast.AssignStmt:
+				for _, l := range n.Lhs {
+					if _, ok := isCursor(l); ok {
+						found = true
+					}
+				}
+			case *ast.IncDecStmt:
+				if _, ok := isCursor(n.X); ok {
+					found = true
+				}
+			case *ast.CallExpr:
+				if fn, ok := c.callee(n).(*types.Func); ok && fn.Pkg() != nil && fn.Pkg().Path() == bclPath {
+					if sig := fn.Type().(*types.Signature); sig.Recv() != nil && c.isLexerType(sig.Recv().Type()) {
+						if cfd := c.funcDecls[fn]; cfd != nil && cfd.Body != nil && cfd != fd {
+							sub := map[string]*Lin{}
+							for k, v := range env {
+								sub[k] = v
+							}
+							before := fmt.Sprint(sub)
+							if msg := c.cursorEffects(cfd, sub, depth+1); msg != "" || fmt.Sprint(sub) != before {
+								found = true
+							}
+						}
+					}
+				}
+			}
+			return true
+		})
+		return found
+	}
+	for _, s := range fd.Body.List {
+		switch s := s.(type) {
+		case *ast.AssignStmt:
+			if len(s.Lhs) == 1 && len(s.Rhs) == 1 {
+				if fp, ok := isCursor(s.Lhs[0]); ok {
+					v, okv := c.linEval(s.Rhs[0], env, nil)
+					if !okv {
+						return c.pos(s.Pos()) + ": the value assigned to " + fp + " is not a sum of the cursor fields"
+					}
+					switch s.Tok {
+					case token.ASSIGN:
+						env[fp] = v
+					case token.ADD_ASSIGN:
+						env[fp] = env[fp].add(v)
+					case token.SUB_ASSIGN:
+						env[fp] = env[fp].sub(v)
+					default:
+						return c.pos(s.Pos()) + ": unsupported assignment to " + fp
+					}
+					continue
+				}
+			}
+			if writesCursor(s) {
+				return c.pos(s.Pos()) + ": a cursor field is assigned in a form that is not followed"
+			}
+		case *ast.IncDecStmt:
+			if fp, ok := isCursor(s.X); ok {
+				if s.Tok == token.INC {
+					env[fp] = env[fp].add(linConst(1))
+				} else {
+					env[fp] = env[fp].sub(linConst(1))
+				}
+			}
+		case *ast.ExprStmt:
+			if call, ok := s.X.(*ast.CallExpr); ok {
+				if fn, ok := c.callee(call).(*types.Func); ok && fn.Pkg() != nil && fn.Pkg().Path() == bclPath {
+					if sig := fn.Type().(*types.Signature); sig.Recv() != nil && c.isLexerType(sig.Recv().Type()) {
+						if cfd := c.funcDecls[fn]; cfd != nil && cfd.Body != nil {
+							if msg := c.cursorEffects(cfd, env, depth+1); msg != "" {
+								return msg
+							}
+							continue
+						}
+					}
+				}
+			}
+			if writesCursor(s) {
+				return c.pos(s.Pos()) + ": a cursor field is changed inside an expression"
+			}
+		default:
+			if writesCursor(s) {
+				return c.pos(s.Pos()) + ": a cursor field is changed under a condition or in a loop"
+			}
+		}
+	}
+	return ""
 }
